@@ -130,7 +130,7 @@ def reference(sc):
     return alone, pr
 
 
-def explore_scenario(sc, bound, shard, nshards, acc, visible=e6.default_visible, max_schedules=None):
+def explore_scenario(sc, bound, shard, nshards, acc, visible=e6.default_visible, max_schedules=None, gate_extra=0):
     name, mspecs, warm, calls, probes, entry = sc
     alone, pref = reference(sc)
     outcomes = {}
@@ -143,8 +143,8 @@ def explore_scenario(sc, bound, shard, nshards, acc, visible=e6.default_visible,
     def check(ex, ctx, choices):
         p, fn = ctx
         acc.count("evaluations")
-        if shard != 0 and ex.preemptions == 0:
-            return  # executions without preemption are run by every shard and judged by shard 0 only
+        if shard != 0 and getattr(ex, "shared_run", ex.preemptions == 0):
+            return  # executions above the sharding level are run by every shard and judged by shard 0 only
         acc.count("schedules")
         if ex.preemptions:
             acc.count("nontrivial")
@@ -175,11 +175,11 @@ def explore_scenario(sc, bound, shard, nshards, acc, visible=e6.default_visible,
         if disc:
             # the preempted location identifies the window; the case id must not depend on line numbers
             locs = [list(map(str, ex.points[i][3][:2])) for i, c in enumerate(choices) if c and i < len(ex.points) and ex.points[i][2]]
-            acc.violation({"scenario": name, "preempted_at": locs, "bound": bound}, disc,
+            acc.violation({"scenario": name, "preempted_at": locs, "bound": bound, "gate_extra": gate_extra}, disc,
                           dict(detail, schedule=[i for i, c in enumerate(choices) if c], points=len(ex.points)))
 
     st = {}
-    e6.explore(make, check, bound, shard, nshards, visible, st, max_schedules)
+    e6.explore(make, check, bound, shard, nshards, visible, st, max_schedules, gate=GATE if gate_extra else None, gate_extra=gate_extra)
     acc.count("distinct_result_vectors", len(outcomes))
     acc.h("points_per_execution", name, st["max_points"])
     acc.h("distinct_outcomes", name, len(outcomes))
@@ -189,6 +189,9 @@ def explore_scenario(sc, bound, shard, nshards, acc, visible=e6.default_visible,
         acc.sample({"scenario": name, "threads": [list(c) for c in calls], "warm": [list(w) for w in warm], "bound": bound,
                     "points": st["max_points"], "alone": [list(a) for a in alone]})
     gen.purge_globals()
+
+
+GATE = e6.build_gate()
 
 
 def config(tier):
@@ -210,7 +213,11 @@ def shard(shard, nshards, tier, seed):
         b = cfg["bound"]
         if tier != "quick" and (not sc[2] or len(sc[3]) > 2):
             b = 1  # no warm-up = the lazy build races (~1500 points per execution): bound 2 only on the warmed 2-thread scenarios
-        explore_scenario(sc, b, shard, nshards, acc)
+        # cold scenarios (the lazy build races): one more preemption is allowed before the build lock is taken
+        # (bootstrap entry point / ensure_compiled / prologue of compile), i.e. a thread that has decided to build
+        # may be held there while the other one is preempted once anywhere
+        cold2 = not sc[2] and len(sc[3]) == 2 and (tier != "quick" or sc[0] == "S1:first-calls,same-args")
+        explore_scenario(sc, b, shard, nshards, acc, gate_extra=1 if cold2 and b == 1 else 0)
     if tier != "quick" and shard < 4:
         # validates the reduction of the scheduling points: bound 1 with every library line visible
         sc = scenarios(tier)[shard if shard < 2 else shard + 1]
@@ -228,7 +235,7 @@ def replay(case):
     for tier in ("quick", "thorough"):
         for sc in scenarios(tier):
             if sc[0] == case["scenario"]:
-                explore_scenario(sc, case.get("bound", 1), 0, 1, acc)
+                explore_scenario(sc, case.get("bound", 1), 0, 1, acc, gate_extra=case.get("gate_extra", 0))
                 return [(r["disc"], r["detail"]) for r in acc.viol if r["case"]["preempted_at"] == case["preempted_at"]]
     return []
 
@@ -241,7 +248,7 @@ def main(tier):
         PROP, tier, "model_checking", merged, t0,
         rule=f"two (thorough: also three, at bound 1) real threads on one shared function, serialised by a baton at every executed source line of the library's "
              f"dispatch / build / resolution code; all schedules with at most {cfg['bound']} preemption(s) (iterative context bounding; "
-             "first calls racing the lazy build: bound 1) over scenarios S1 racing first calls (same / different arguments, through "
+             "first calls racing the lazy build: bound 1 anywhere plus one more preemption located before the build lock is taken - bootstrap entry point, ensure_compiled, prologue of compile) over scenarios S1 racing first calls (same / different arguments, through "
              "the dispatch function, Ovld.__call__, a bound method), S2 racing cache misses (same / different / position-sharing "
              "tuples), S3 racing call_next chains, S4 racing dependent dispatchers; oracle: each thread's result equals its result "
              "alone (both sequential orders agree), no deadlock, and afterwards every probe equals the fault-free function; "
